@@ -784,3 +784,122 @@ Proof.
     + split; [tauto|intros; discriminate].
     + intros _. apply (ic_order _ C i _ Hi). simpl. lia.
 Qed.
+
+Lemma step_proc_latch s k pr s' :
+  InvA s -> nth_error (st_proc s) k = Some pr -> step_proc s k pr = Some s' ->
+  (sp_quiet (st_pool s) = true -> sp_quiet (st_pool s') = true) /\
+  sp_panic (st_pool s') = sp_panic (st_pool s).
+Proof.
+  intros A Hk H. pose proof (ia_d3 _ A) as Ad. unfold nD3 in Ad.
+  pose proof (sumn_ge pd3 _ _ _ Hk) as G.
+  destruct pr as [o src pc]. unfold step_proc in H. simpl in H.
+  destruct pc as [|m r|m r|[d ks] r|r|r|r| | | |]; simpl in H;
+    unfold a_close_quiet in H; step_cases H; simpl in *; auto;
+    destruct (sp_quiet (st_pool s)) eqn:Q; simpl in *; auto;
+    exfalso; destruct (sp_zero (st_pool s)); simpl in *; lia.
+Qed.
+
+Lemma InvC_step W s t s' : Inv W s -> step s t = Some s' -> InvC s'.
+Proof.
+  intros I H. destruct t as [i|k|]; simpl in H.
+  - destruct (nth_error (st_main s) i) as [pc|] eqn:Hi; [|discriminate].
+    eapply InvC_step_main; eauto.
+  - destruct (nth_error (st_proc s) k) as [pr|] eqn:Hk; [|discriminate].
+    destruct (step_proc_frame _ _ _ _ H) as (F1 & F2 & F3 & F4 & F5 & F6 & _).
+    destruct (step_proc_latch _ _ _ _ (iA _ _ I) Hk H) as [Q P].
+    destruct I as [_ _ _ [C1 C2 C3 C4 C5 C6] _].
+    constructor; rewrite ?F1, ?F2, ?F3, ?F4, ?F5, ?F6, ?P; auto.
+    intros i pc Hi Hph. destruct (C3 i pc Hi Hph). split; auto.
+  - destruct (st_cancel s); [discriminate|]. inversion H; subst.
+    destruct I as [_ _ _ [C1 C2 C3 C4 C5 C6] _]. constructor; simpl; auto.
+Qed.
+
+(* ---- consequences used by the remaining parts ------------------------------------------------- *)
+
+(* once the latch is closed, nothing is pending, held or queued *)
+Lemma quiet_zero W s :
+  Inv W s -> sp_quiet (st_pool s) = true ->
+  sumn mpend (st_main s) + sumn phold (st_proc s) + length (st_flight s) = 0.
+Proof.
+  intros I Q. destruct (iA _ _ I) as [Ai _ Az Ad _]. rewrite Q in Ad. simpl in Ad.
+  assert (Z : sp_zero (st_pool s) = true) by (destruct (sp_zero (st_pool s)); simpl in *; auto; lia).
+  assert (Z0 : sp_inflight (st_pool s) = 0%Z) by (apply Az; auto). lia.
+Qed.
+
+(* a member that has started its Cleanup has seen the latch closed *)
+Lemma closed_quiet W s a :
+  Inv W s -> a < st_n s -> 0 < nth a (st_closed s) 0 -> sp_quiet (st_pool s) = true.
+Proof.
+  intros I Ha Hc. destruct (iC _ _ I) as [Cc _ Co _ _ _].
+  assert (Hl : a < length (st_main s)) by (rewrite (il_main _ (iL _ _ I)); auto).
+  destruct (nth_error_ex _ _ Hl) as [pc Hpc].
+  destruct (Cc a pc Hpc) as [E _]. rewrite E in Hc.
+  apply (Co a pc Hpc). destruct pc; simpl in *; lia.
+Qed.
+
+Lemma psize_after o src c r : psize (mkProc o src (after c r)) = msizes r.
+Proof. destruct r; simpl; auto. destruct c; reflexivity. Qed.
+
+Lemma msizes_cons m r : msizes (m :: r) = msize m + msizes r.
+Proof. reflexivity. Qed.
+
+Lemma msize_Msg d ks : msize (Msg d ks) = S (msizes ks).
+Proof. reflexivity. Qed.
+
+(* ---- InvD: conservation of work ----------------------------------------------------------------- *)
+
+Lemma InvD_step_proc W s k pr s' :
+  Inv W s -> nth_error (st_proc s) k = Some pr -> step_proc s k pr = Some s' -> InvD W s'.
+Proof.
+  intros I Hk H. destruct (iD _ _ I) as [Dc Dl Dp].
+  pose proof (iL _ _ I) as L.
+  destruct (il_proc _ L _ _ Hk) as [Lo Ls].
+  constructor.
+  - (* conservation *)
+    destruct pr as [o src pc].
+    pose proof (fun x => sumn_upd psize k x _ _ Hk) as U.
+    unfold step_proc in H. simpl in H.
+    destruct pc as [|m r|m r|[d ks] r|r|r|r| | | |]; simpl in H; step_cases H;
+      try match goal with
+          | T : take_first _ _ _ = Some _ |- _ =>
+            pose proof (proj2 (proj2 (proj2 (proj2 (proj2 (take_first_spec _ _ _ _ _ T))))) qsize) as TS
+          end;
+      repeat (match goal with |- context[if ?c then _ else _] => destruct c eqn:? end);
+      simpl;
+      match goal with |- context[sumn psize (upd k ?x _)] => pose proof (U x) as Ux end;
+      rewrite ?psize_after in Ux; simpl in Ux; rewrite ?sumn_app; simpl; unfold qsize in *; simpl in *;
+      try lia.
+  - (* nothing is lost unless the request is cancelled *)
+    destruct (step_proc_frame _ _ _ _ H) as (_ & _ & _ & _ & _ & _ & Fc & _).
+    rewrite Fc. intro Hc. specialize (Dl Hc).
+    destruct pr as [o src pc]. unfold step_proc in H. simpl in H.
+    destruct pc as [|m r|m r|[d ks] r|r|r|r| | | |]; simpl in H; step_cases H; simpl in *; auto; try congruence.
+    (* Send on a closed listener: the owner has started Cleanup, so the latch is closed and this
+       goroutine could not be holding a message *)
+    exfalso. rewrite Hc in *. simpl in *. unfold edge_closed in Heqb.
+    apply Nat.ltb_lt in Heqb.
+    assert (Q : sp_quiet (st_pool s) = true) by (eapply closed_quiet; eauto; lia).
+    pose proof (quiet_zero _ _ I Q) as Z.
+    pose proof (sumn_ge phold _ _ _ Hk) as G. simpl in G. lia.
+  - (* a returned goroutine of a cyclical sender has seen its queue closed *)
+    destruct (step_proc_frame _ _ _ _ H) as (_ & _ & _ & _ & Fcl & _ & _ & _ & _ & _ & pc' & Fp).
+    intros k' p a. rewrite Fp, nth_error_upd.
+    destruct ((k' =? k) && (k <? length (st_proc s))) eqn:E.
+    + intro X; inversion X; subst p; simpl. intros Hs Hpc. subst pc'.
+      unfold edge_closed. rewrite Fcl.
+      destruct pr as [o src pc]. simpl in *. subst src.
+      unfold step_proc in H. simpl in H.
+      destruct pc as [|m r|m r|[d ks] r|r|r|r| | | |]; simpl in H; step_cases H; simpl in *;
+        try match goal with X : upd _ _ _ = upd _ _ _ |- _ => idtac end;
+        try (assert (Hk' : k < length (st_proc s)) by (eapply nth_error_lt; eauto);
+             match goal with
+             | X : upd k ?x ?l = upd k ?y ?l |- _ =>
+               assert (Ex : Some x = Some y) by
+                 (rewrite <- (nth_error_upd_eq k x l Hk'), X, (nth_error_upd_eq k y l Hk'); reflexivity);
+               inversion Ex
+             end);
+        try (destruct r; discriminate); auto.
+      * destruct (q_kids q); discriminate.
+      * apply (Dp k _ a Hk eq_refl eq_refl).
+    + intros Hp Hs Hpc. unfold edge_closed. rewrite Fcl. apply (Dp k' p a Hp Hs Hpc).
+Qed.
